@@ -560,6 +560,9 @@ pub fn run(cfg: &Config) -> i32 {
                     base.swap(0, 1);
                 }
                 cases.push(("block4/generated".into(), Case::Block4 { mt: lay.mt.to_string(), text: tok::render(&base, false, false) }));
+                // the same message as it arrives from the network: CRLF line ends (inside multi-line values too)
+                cases.push(("block4/generated-crlf".into(), Case::Block4 { mt: lay.mt.to_string(), text: tok::render(&base, true, false) }));
+                cases.push(("full/generated-crlf".into(), Case::Full { text: format!("{{1:{}}}{{2:{}}}{{4:\r\n{}\r\n-}}", super::c10::block1(vi as usize, false), super::c10::block2_input(lay.mt, vi as usize, 17), tok::render(&base, true, false)) }));
                 let mut r2 = Rng::new(sd, &format!("c02-gen-mut:{}", lay.mt), vi);
                 for m in mutate::single_mutations(&base, &pool, &mut r2, false) {
                     cases.push((format!("block4/generated-mutant:{}", m.kind), Case::Block4 { mt: lay.mt.to_string(), text: tok::render(&m.fields, false, false) }));
@@ -587,6 +590,11 @@ pub fn run(cfg: &Config) -> i32 {
         for t in super::c10::B5_TAGS {
             b5s.push(format!("{{5:{{{t}:{}}}}}", super::c10::b5_value(t, 5)));
         }
+        // values as received need not be in the spelling the library itself would write
+        b5s.push("{5:{CHK:1a2b3c4d5e6f}}".into());
+        b5s.push("{5:{MAC:0a1b2c3d}{CHK:123456789abc}}".into());
+        b5s.push("{5:{MAC:0A1B2C3D}{CHK:123456789ABC}}".into());
+        b5s.push("{5:{CHK:123456789ABC}{TNG:}}".into());
         for b3 in &b3s {
             for b5 in &b5s {
                 k += 1;
